@@ -439,6 +439,11 @@ func TestVerif_C04_Wire(t *testing.T) {
 	report := func(mode string, evs []c04Ev, res c04WireRes) {
 		names := c04EvNames(evs)
 		for _, f := range res.fails {
+			if f.key == "ceiling-exceeded" && mode == "bdp" && strings.Contains(names, "readA(2147483647)") {
+				// wire-level reproduction of the known E2 finding: same fixed key
+				r.Violation(P, c04KnownKey, "[wire, bdp] "+f.desc+"\n  history: "+names+"\n  client frames: "+res.log, c04WireReplay{Mode: mode, Events: strings.Split(names, ",")})
+				continue
+			}
 			r.Violation(P, "wire-"+mode+"/"+f.key+"/"+names, "["+mode+"] "+f.desc+"\n  history: "+names+"\n  client frames: "+res.log, c04WireReplay{Mode: mode, Events: strings.Split(names, ",")})
 		}
 	}
@@ -556,19 +561,17 @@ func TestVerif_C04_Wire(t *testing.T) {
 	// raise" (fixed history, stable key): a ~2 GiB read is outstanding when the
 	// BDP estimator raises the window.
 	if sh, _ := r.Shard(); sh == 0 {
-		evs := []c04Ev{byName["readA(2147483647)"], byName[fmt.Sprintf("dataA(%d)", c04WL)]}
+		evs := []c04Ev{byName["readA(2147483647)"], byName[fmt.Sprintf("dataA(%d)", c04WL+1)]}
 		res := c04WireRun(t, false, evs)
 		hist++
 		transitions += int64(res.events)
 		if res.engine != "" {
 			r.EngineError("wire-bdp confirm: %s", res.engine)
 		}
-		for k := range res.fails {
-			if res.fails[k].key == "ceiling-exceeded" {
-				res.fails[k].key = "ceiling-exceeded-after-bdp-raise"
-			}
-		}
 		report("bdp", evs, res)
+		if len(res.fails) > 0 {
+			r.Outcome(P, "wire-bdp:known-ceiling-finding-reproduced-on-the-wire")
+		}
 	}
 	r.Eval(P, hist)
 	r.Traces(P, hist)
